@@ -548,6 +548,36 @@ def fam_ids(out, tier, rnd):
                         make(w, newkind)
                     w.lost(A, "done"); drain(w, 2)
                     out.done(w)
+            # two addresses of one factory: the run is held by address A (its connection up, or lost with a persistent session),
+            # the new requests are made on address B
+            for run in runs:
+                if (prof == "pub" and any(k in ("sub", "unsub") for k in run)) or (tier == "quick" and rnd.random() < 0.5):
+                    continue
+                for a_state in ("up", "lost-persistent"):
+                    w = out.world(prof)
+                    w.build(A); w.set(A, "onDisconnection", 1); w.set(A, "window", 8)
+                    w.connect(A, keepalive=0, cleanStart=False); w.recv(A, W.connack(0, 0))
+                    place(w, first)
+                    for k in run:
+                        make(w, k)
+                    if a_state == "lost-persistent":
+                        w.lost(A, "lost"); drain(w, 2)
+                    w.build("B"); w.set("B", "onDisconnection", 1); w.set("B", "window", 8)
+                    w.connect("B", keepalive=0, cleanStart=True); w.recv("B", W.connack(0, 0))
+                    place(w, first - rnd.choice([0, 0, 1]))
+                    nk = rnd.choice(("pub1", "sub", "pub2") if prof == "both" else ("pub1", "pub2"))
+                    for _ in range(3):
+                        if nk == "pub1":
+                            w.publish("B", "t", "m", 1)
+                        elif nk == "pub2":
+                            w.publish("B", "t", "m", 2)
+                        else:
+                            w.subscribe("B", [("s/%d" % w.n, 1)])
+                    w.lost("B", "done")
+                    if a_state == "up":
+                        w.lost(A, "done")
+                    drain(w, 2)
+                    out.done(w)
             # held back in the queue: window 2, four publishes, then requests that are not subject to the publish window
             for qs in ((1, 1, 1, 1), (2, 1, 2, 1), (1, 2, 0, 1)):
                 w = out.world(prof)
@@ -672,6 +702,88 @@ def fam_inbound2(out, tier, rnd):
                                         w.lost(A, "done")
                                     drain(w, 2)
                                     out.done(w)
+
+
+# ------------------------------------------------------------------------------------------------ resumption over three connections
+def written_ids(w, since=0):
+    """(type, qos, id) of the PUBLISH / PUBREL packets written from line `since` on (taken from the bytes on the wire)"""
+    out = []
+    for ln in w.lines[since:]:
+        for e in ln["fx"]:
+            b = e.get("bytes")
+            if e["k"] != "write" or not b:
+                continue
+            t = b[0] >> 4
+            i = 1
+            while b[i] & 0x80:
+                i += 1
+            i += 1
+            if t == 3 and (b[0] >> 1) & 3:
+                tl = b[i] * 256 + b[i + 1]
+                out.append(("PUBLISH", (b[0] >> 1) & 3, b[i + 2 + tl] * 256 + b[i + 3 + tl]))
+            elif t == 6:
+                out.append(("PUBREL", 2, b[i] * 256 + b[i + 1]))
+    return out
+
+
+def fam_resume(out, tier, rnd):
+    """a persistent session carried over three connections: publishes of mixed QoS in flight and held back on the first,
+    more of them before / after the CONNACK of the second, which is lost before or after its CONNACK, and a third that
+    resumes (or clears) everything and gets every acknowledgement                                        (C12, C13, C10)"""
+    pats = ([1], [2], [1, 2], [2, 1, 1], [1, 0, 2], [2, 2, 1, 1])
+    for prof in ("pub", "both"):
+        for win in (1, 2, 3):
+            for pat in pats:
+                for rec1 in (False, True):
+                    for k2 in (0, 1, 2):
+                        for stage2 in ("lost-before-connack", "connack-then-lost", "connack-ack-then-lost"):
+                            for clean3 in (False, True):
+                                if tier == "quick" and rnd.random() < (0.8 if clean3 else 0.5):
+                                    continue
+                                w = out.world(prof)
+                                w.build(A); w.set(A, "onDisconnection", 1); w.set(A, "window", win)
+                                w.connect(A, keepalive=0, cleanStart=False); w.recv(A, W.connack(0, 0))
+                                for j, q in enumerate(pat):
+                                    w.publish(A, "t/%d" % j, "c1-%d" % j, q)
+                                if rec1:
+                                    first2 = [x for x in written_ids(w) if x[0] == "PUBLISH" and x[1] == 2]
+                                    if first2:
+                                        w.recv(A, W.ack("PUBREC", first2[0][2]))
+                                w.lost(A, rnd.choice(["done", "lost"])); drain(w, 2)
+                                # second connection
+                                w.build(A); w.set(A, "onDisconnection", 1); w.set(A, "window", max(win, 2) if k2 else win)
+                                w.connect(A, keepalive=0, cleanStart=False)
+                                for j in range(k2):
+                                    w.publish(A, "u/%d" % j, "c2-%d" % j, 1 + j % 2)
+                                if stage2 != "lost-before-connack":
+                                    w.recv(A, W.connack(0, 1))
+                                    w.publish(A, "u/x", "c2-after", 1)
+                                    if stage2 == "connack-ack-then-lost":
+                                        seen = written_ids(w)
+                                        if seen:
+                                            t, q, i = seen[0]
+                                            w.recv(A, W.ack("PUBCOMP" if t == "PUBREL" else ("PUBACK" if q == 1 else "PUBREC"), i))
+                                w.lost(A, "lost"); drain(w, 2)
+                                # third connection: resumes or clears, then every acknowledgement in wire order
+                                w.build(A); w.set(A, "onDisconnection", 1); w.set(A, "window", 3)
+                                mark = len(w.lines)
+                                w.connect(A, keepalive=0, cleanStart=clean3)
+                                w.publish(A, "v", "c3-early", 1)
+                                w.recv(A, W.connack(0, 0 if clean3 else 1))
+                                for _ in range(12):
+                                    todo = []
+                                    for t, q, i in written_ids(w, mark):
+                                        if (t, q, i) not in todo:
+                                            todo.append((t, q, i))
+                                    mark = len(w.lines)
+                                    if not todo or w.t[A].phase != "open":
+                                        break
+                                    for t, q, i in todo:
+                                        w.recv(A, W.ack("PUBCOMP" if t == "PUBREL" else ("PUBACK" if q == 1 else "PUBREC"), i))
+                                if w.due() and w.in_range(w.due()[0]):
+                                    w.fire(w.due()[0])
+                                w.lost(A, "done"); drain(w, 3)
+                                out.done(w)
 
 # ------------------------------------------------------------------------------------------------ react (stage 3)
 def actions(w):
@@ -814,7 +926,7 @@ def main():
     outdir, fam, tier, seed = sys.argv[1], sys.argv[2], sys.argv[3], int(sys.argv[4])
     rnd = random.Random(seed)
     out = Out(outdir)
-    {"handshake": fam_handshake, "inject": fam_inject, "args": fam_args, "react": fam_react, "refused": fam_refused, "refstate": fam_refstate, "ids": fam_ids, "retrygrid": fam_retrygrid, "inbound2": fam_inbound2}[fam](out, tier, rnd)
+    {"handshake": fam_handshake, "inject": fam_inject, "args": fam_args, "react": fam_react, "refused": fam_refused, "refstate": fam_refstate, "ids": fam_ids, "retrygrid": fam_retrygrid, "inbound2": fam_inbound2, "resume": fam_resume}[fam](out, tier, rnd)
     out.close()
 
 
